@@ -2,7 +2,7 @@
    `Pipeline.build` emits.  Joins C11_prefix_nesting (Res/Compose.v) with the [renamed] relation of
    Res/PipelineWfProofs.v.  Theorems only; proofs in Res/PipelineNestProofs.v. *)
 From KV Require Import Res.Pipeline Res.PipelineProofs Res.PipelineFrameProofs Res.PipelineWfProofs Res.RenameProofs
-                       Res.NameRefProofs Res.CsvFacts Res.PipelineNestProofs.
+                       Res.NameRefProofs Res.CsvFacts Res.PipelineNestProofs Fs.BuildLoad Fs.C11Relocate.
 From Coq Require Import Sorting.Permutation.
 Local Open Scope string_scope.
 
@@ -13,7 +13,7 @@ Local Open Scope string_scope.
 Theorem PIPE_accumulate_names :
   forall nonstr t m, nest_wf t -> accumulate nonstr t = Ok m ->
     Forall W m /\ NH m /\ map idr m = pnames t.
-Proof. exact accumulate_names. Qed.
+Proof. exact PipelineNestProofs.accumulate_names. Qed.
 Print Assumptions PIPE_accumulate_names.
 
 (* The whole build: the identities of the output documents are the prescribed ones minus what IgnoreLocal drops
@@ -24,14 +24,14 @@ Theorem PIPE_prefix_nesting :
     nest_wf (PDir n d ents) -> build nonstr o (PDir n d ents) = Ok outs ->
     exists kept, subrel eq (pnames (PDir n d ents)) kept /\ Permutation (map ident outs) kept /\
                  (match o with PSortLegacy _ _ => True | _ => map ident outs = kept end).
-Proof. exact build_names. Qed.
+Proof. exact PipelineNestProofs.build_names. Qed.
 Print Assumptions PIPE_prefix_nesting.
 
 Theorem PIPE_prefix_nesting_in :
   forall nonstr o n d ents outs,
     nest_wf (PDir n d ents) -> build nonstr o (PDir n d ents) = Ok outs ->
     forall x, In x outs -> In (ident x) (pnames (PDir n d ents)).
-Proof. exact build_names_in. Qed.
+Proof. exact PipelineNestProofs.build_names_in. Qed.
 Print Assumptions PIPE_prefix_nesting_in.
 
 (* C11_prefix_nesting_chain for Pipeline.build: overlays (p1,s1) ... (pk,sk), outermost first, around one file of
@@ -43,5 +43,40 @@ Theorem PIPE_prefix_nesting_chain :
     Forall (fun ps => no_char ","%char (fst ps) = true /\ no_char ","%char (snd ps) = true) ((p, s) :: rest) ->
     build nonstr o (pchain ((p, s) :: rest) (PFile docs)) = Ok outs ->
     forall x, In x outs -> exists n, In n docs /\ ident x = nested_idt ((p, s) :: rest) (ident n).
-Proof. exact build_chain_names. Qed.
+Proof. exact PipelineNestProofs.build_chain_names. Qed.
 Print Assumptions PIPE_prefix_nesting_chain.
+
+(* ---------- C11: relocation, over the model build FROM A FILE SYSTEM ----------
+   model_build = NewLoader ; load_tree (kustomization files and `resources:` entries read through
+   FileLoader.Load / New, Fs/BuildLoad.v) ; Pipeline.build.  Two file systems hold the same tree in two places:
+   [phi] maps a directory of the tree to where it lives after the move, and on the directories [D] and the
+   (relative, local) references [P] of the tree the two operations the loader uses agree up to [phi]
+   (CleanedAbs: moved directory, same file name; ReadFile: same bytes; "in or below": unchanged).
+   Then the two builds have the same outcome class and, on success, the SAME output documents; the read events
+   differ only in their roots.  Example ex_relocate_hyps / ex_relocate_builds: an in-memory tree at /a and at
+   /b/x satisfies every hypothesis and both builds give p-cm, p-svc-s. *)
+Theorem C11_relocate_model_build :
+  forall is_repo git_new parse_kust parse_docs (fs fs' : fsops) (phi : string -> string)
+         (D P Fn : string -> Prop),
+    P kust_file ->
+    (forall p, P p -> is_abs p = false /\ is_repo p = false) ->
+    (forall b d ps, parse_kust b = Ok (d, ps) -> Forall P ps) ->
+    (forall r p, D r -> P p ->
+       same_place phi D Fn (f_cleaned_abs fs (cd_join r p)) (f_cleaned_abs fs' (cd_join (phi r) p))) ->
+    (forall p, P p -> Fn p) ->
+    (forall d f, D d -> Fn f -> f_read_file fs' (cd_join (phi d) f) = f_read_file fs (cd_join d f)) ->
+    (forall a b, D a -> D b -> cd_has_prefix (phi a) (phi b) = cd_has_prefix a b) ->
+    (forall r p, D r -> P p -> String.eqb (cd_join (phi r) p) "" = String.eqb (cd_join r p) "") ->
+    forall target target',
+      is_repo target = false /\ is_repo target' = false ->
+      String.eqb target' "" = String.eqb target "" ->
+      same_place phi D Fn (f_cleaned_abs fs target) (f_cleaned_abs fs' target') ->
+      forall nonstr o fuel,
+        match model_build is_repo git_new parse_kust parse_docs nonstr o fuel fs target,
+              model_build is_repo git_new parse_kust parse_docs nonstr o fuel fs' target' with
+        | Ok a, Ok b => fst b = fst a
+        | Err, Err | Panic, Panic | Diverge, Diverge => True
+        | _, _ => False
+        end.
+Proof. exact C11Relocate.model_build_relocate_out. Qed.
+Print Assumptions C11_relocate_model_build.
